@@ -154,6 +154,18 @@ theorem C07_remove_clears {E : Env} {s s' : St} {o : Id} (hw : WfEnv E) (hi : In
   · exact hgone.1 ((hi'.invS l o).mp hl).2.1
   · exact hgone.2 ((hi'.invD l t o).mp hm).2.1
 
+/-- the full assignment never fails, whatever the scenario holds and whatever the lookups answer (no TypeError on a missing
+    dict, no AttributeError on an unknown lanelet or a time step outside the trajectory) -/
+theorem C07_assign_total {E : Env} (hw : WfEnv E) (s : St) : ∃ s', assign E none none false s = .ok s' :=
+  assign_total hw s
+
+/-- adding an obstacle with a fresh id never fails in a state reached by a history (also a re-added obstacle that still
+    carries its assignment) -/
+theorem C07_add_total {E : Env} (hw : WfEnv E) (ops : List Op) (hops : ∀ op ∈ ops, op.ShapeBased) (s : St)
+    (h : run E St.init ops = .ok s) (o : Id) (hfresh : o ∉ s.statics ∧ o ∉ s.dynamics ∧ o ∉ E.lanelets) :
+    ∃ s', add E s o = .ok s' :=
+  add_total hw (C07_inv_run hw ops St.init s (C07_inv_init E) hops h) hfresh
+
 /-! ### non-vacuity: a concrete road, three obstacles, a history — the hypotheses are satisfiable and the model computes -/
 
 /-- two lanes 1, 2; static obstacle 30 (centre on lane 1, shape on both), dynamic obstacle 31 with two trajectory states
